@@ -66,6 +66,9 @@ func conformantSSO(rng *rand.Rand) *ssoCase {
 	// consumer services: 1..3 entries over the two supported bindings
 	d.ACS = nil
 	n := 1 + rng.Intn(3)
+	if rng.Intn(15) == 0 {
+		n = 8 + rng.Intn(12) // long consumer lists exist (one per language / tenant)
+	}
 	for k := 0; k < n; k++ {
 		b := []string{spsim.BindPost, spsim.BindRedirect}[rng.Intn(2)]
 		a := spsim.ACS{Binding: b, Location: fmt.Sprintf("https://sp%d.example/acs/%d", i, k), Index: fmt.Sprint(k)}
